@@ -28,6 +28,8 @@ CLIENT_ANSWERS = [
     ("tools/call", '{"content":[{"type":"text","text":"line\\nbreak \\u2028 é 😀"}],"_meta":{"k":"v"}}', False),
     ("tools/call", '{"content":[{"type":"audio","data":"aGk=","mimeType":"audio/wav"}]}', False),
     ("tools/call", '{"content":[{"type":"text","text":""}]}', False),
+    ("tools/call", '{"content":[{"type":"text","text":"' + "L" * 100000 + '"}]}', False),
+    ("resources/read", '{"contents":[{"uri":"r://big","text":"' + "B" * 300000 + '"}]}', False),
     ("tools/call", '{"code":-32603,"message":"scripted failure"}', True),
     ("tools/call", '{"code":-32602,"message":"bad params","data":{"x":1}}', True),
     ("tools/list", '{"tools":[{"name":"t1","description":"d","inputSchema":{"type":"object","properties":{"a":{"type":"string"}},"required":["a"]},"annotations":{"title":"T","readOnlyHint":true}},{"name":"t2","inputSchema":{"type":"object"}}]}', False),
@@ -97,6 +99,8 @@ def run(tier, replay=None):
     # requests beyond Core's classes whose answers must merely agree: version negotiation, names registered twice
     EXTRA = {"rich": [("initialize", "pv:" + v, json.dumps({"jsonrpc": "2.0", "id": 880 + k, "method": "initialize", "params": {"protocolVersion": v,
                        "clientInfo": {"name": "p", "version": "0"}, "capabilities": {}}})) for k, v in enumerate(["1999-01-01", "", "2024-11-05", "2025-03-26", "2025-06-18", "9999-12-31"])],
+             "set2": [("tools/call", "num:" + lit, '{"jsonrpc":"2.0","id":%d,"method":"tools/call","params":{"name":"t-num","arguments":{"x":%s}}}' % (870 + k, lit))
+                      for k, lit in enumerate(["2.5", "1e2", "7", "-0.125", "12345678901234567890"])],
              "dup": [("tools/call", "dup-echo", '{"jsonrpc":"2.0","id":890,"method":"tools/call","params":{"name":"echo","arguments":{"nonce":"d"}}}'),
                      ("prompts/get", "dup-prompt", '{"jsonrpc":"2.0","id":891,"method":"prompts/get","params":{"name":"p-dup"}}'),
                      ("resources/read", "dup-resource", '{"jsonrpc":"2.0","id":892,"method":"resources/read","params":{"uri":"r://dup"}}')]}
